@@ -13,6 +13,7 @@ def handle (op real : String) : Verdict := Id.run do
   let mut s : St := { clients := [] }
   let mut outs : List String := []
   let mut specBad : Option String := none
+  let mut notFwd : Option String := none
   let realToks := splitNE real " "
   for t in toks do
     if t.startsWith "C" then
@@ -61,7 +62,11 @@ def handle (op real : String) : Verdict := Id.run do
         let (r, s') := forward missing s i
         s := s'
         match r with
-        | some (.forwarded k v c) => outs := outs ++ [s!"at:{hexOfString k}/{v}/{c}"]
+        | some (.forwarded k v c) =>
+          -- a request the client's session allows reaches a backend, whatever USE statements - accepted or rejected - came before
+          if realTok.startsWith "notforwarded" || realTok == "none" then
+            notFwd := some s!"request of client {i} was not forwarded ({realTok}) although its keyspace in force is '{k}'"
+          outs := outs ++ [s!"at:{hexOfString k}/{v}/{c}"]
         | some .invalidKeyspace => outs := outs ++ ["notforwarded:Attempted_to_use_invalid_keyspace"]
         | _ => pure ()
       | _ => pure ()
@@ -71,6 +76,8 @@ def handle (op real : String) : Verdict := Id.run do
     return { kind := "spec", sig, key := "C01:two-replies", detail := s!"a USE was answered with more than one frame: {op} -> {real}" }
   if let some w := specBad then
     return { kind := "spec", sig, key := "C07:wrong-session", detail := s!"{w}: {op} -> {real}" }
+  if let some w := notFwd then
+    return { kind := "spec", sig, key := "C07:not-forwarded", detail := s!"{w}: {op} -> {real}" }
   if model ≠ real then return { kind := "diff", sig, detail := model }
   return { kind := "ok", sig }
 
